@@ -18,10 +18,23 @@ BOUND: int = int(CASE.get('bound', 0))  # 0 = unbounded
 SHIFT_MAX: int = int(CASE.get('shift_max', 64))
 
 
+class _StubLabel:
+	def is_a(self, *classes) -> bool:
+		return any(c.__name__ == 'Empty' for c in classes)  # a positional argument has no label
+
+
+class _StubArgument:
+	label = _StubLabel()
+	unpacking = ''
+
+
 class StubNode:
+	"""a FuncCall / literal node as far as the evaluator reads it: tokens, calls and (for a cast) one positional argument"""
+
 	def __init__(self, tokens: str, calls: 'StubNode | None' = None) -> None:
 		self.tokens = tokens
 		self.calls = calls
+		self.arguments = [_StubArgument()]
 
 
 def py_bin(a, op: str, b):
